@@ -181,18 +181,41 @@ def insCompare (k : InsKind) (v : Val) (path : List Bytes) (o : Op) (right : Byt
     | .nil => none
     | leaf => leaf.cmpLit o right
 
-/-- `Inspector.Length`. -/
+/-- Strict path walk for `Length` of the code-generated inspectors: `none` as soon as a chunk does not
+    resolve (the result buffer then stays at the 0 it was initialised with). -/
+def strictPathObj : Val → List Bytes → Option Val
+  | v, [] => some v
+  | .obj fs, p :: ps => match lookupField p fs with
+    | some v' => strictPathObj v' ps
+    | none => none
+  | .list xs, p :: ps => match parseNatDec p with
+    | some i => match xs[i]? with
+      | some v' => strictPathObj v' ps
+      | none => none
+    | none => none
+  | _, _ :: _ => none
+
+def lenOf : Val → Nat
+  | .str s => s.length
+  | .bytes s => s.length
+  | .list xs => xs.length
+  | .strs xs => xs.length
+  | _ => 0
+
+/-- `Inspector.Length`: `none` = the result buffer is left untouched (StringsInspector on a path it
+    does not resolve; outside the generated class). -/
 def insLength (k : InsKind) (v : Val) (path : List Bytes) : Option Nat :=
-  let leaf := match k with
-    | .static => v
-    | .strings => if path.isEmpty then v else insGet k v path
-    | .obj => getPathObj v path
-  match leaf with
-  | .str s => some s.length
-  | .bytes s => some s.length
-  | .list xs => some xs.length
-  | .strs xs => some xs.length
-  | _ => none
+  match k with
+  | .static => some (lenOf v)                       -- StaticInspector ignores the path; 0 for non-sequences
+  | .strings => match v, path with
+    | .strs xs, [] => if xs.isEmpty then none else some xs.length
+    | .strs xs, [p] => match parseNatDec p with
+      | some i => (xs[i]?).map List.length
+      | none => none
+    | _, _ => none
+  | .obj => some (match strictPathObj v path with
+    | some leaf => lenOf leaf
+    | none => 0)
 
 /-- Elements `Inspector.Loop` hands to the iterator: (key text, value, value's inspector). -/
 def insLoop (k : InsKind) (v : Val) (path : List Bytes) : List (Bytes × Val × InsKind) :=
